@@ -440,6 +440,9 @@ class ParameterIndependence:
         worst = {}
         for k in range(2 if tier == "quick" else 8):
             a = np.diag(rng.uniform(5, 9, 3)) + rng.uniform(-0.5, 0.5, (3, 3))
+            if k % 2 == 1:
+                # a strongly non-symmetric lattice matrix (lower triangular, large off-diagonal entries): a and its transpose are different lattices
+                a = np.array([[rng.uniform(5, 7), 0.0, 0.0], [rng.uniform(2, 3.5), rng.uniform(5, 6), 0.0], [rng.uniform(1.5, 2.5), rng.uniform(1, 2), rng.uniform(6, 8)]])
             nat = int(rng.integers(2, 4))
             pos = rng.uniform(0, 1, (nat, 3)) @ a
             Z = rng.integers(1, 4, nat)  # Atoms.Z stores integer valence charges
